@@ -6,14 +6,15 @@ namespace vs { namespace c05 {
 
 using namespace gen;
 
-static const char * kNames5[] = {"a", "b", "ab", "c", "1", "2", "12", "a*"};
-inline std::string Name5(Rng & r) {return kNames5[r.below(r.oneIn(4) ? 8 : 4)];}
+static const char * kNames5[] = {"a", "b", "ab", "c", "1", "2", "12", "a*", "a,b"};   // (the last two: node names that contain a pattern character -- a literal star, a literal comma)
+inline std::string Name5(Rng & r) {return kNames5[r.below(r.oneIn(4) ? 9 : 4)];}
 inline std::string RelPath5(Rng & r) {std::string p = Name5(r); const int d = (int) r.below(3); for (int i=0; i<d; i++) p += "/" + Name5(r); return p;}
 // the full documented syntax: escapes, ~negation, <n-m> ranges, nested alternation, comma lists, classes
 inline std::string FullClause(Rng & r)
 {
-   switch(r.below(14))
+   switch(r.below(16))
    {
+      case 14: return "a\\,b,c";    case 15: return r.oneIn(2) ? "a\\,b" : "c,a\\,b";   // an escaped comma inside a comma list: the node named "a,b" (and the one named "c")
       case 0: return "~a";            case 1: return "<1-2>";        case 2: return "<2->";         case 3: return "(a|(b|c))";
       case 4: return "a\\*";          case 5: return "~(a|b)";       case 6: return "[!a]";         case 7: return "?*";
       case 8: return "a,b,c";         case 9: return "<-1,12>";      case 10: return "*\\*";        case 11: return "[a-c]?";
@@ -72,7 +73,7 @@ inline Plan Gen(uint64_t seed)
       else if (k < 82)
       {
          const uint32_t q = wl.below(6);
-         if (q < 2) p.push_back(sendPfx + (q ? "rmroute" : "rmroutefilters"));
+         if (q < 2) p.push_back(sendPfx + (q ? "rmroute" : (wl.oneIn(2) ? "rmroutefilters" : "rmroutefilters2")));   // (rmroutefilters2: one REMOVEPARAMETERS naming the route's filters AND further parameters)
          else if (q < 4) p.push_back(sendPfx + "routebare " + I(g.routeSeq++));   // a routed Message without any field (broadcast / default route)
          else if (wl.oneIn(3)) p.push_back(sendPfx + "jettisontrees" + (wl.oneIn(2) ? std::string() : std::string(wl.oneIn(2) ? " *" : " t1")));   /* the subtree-download variant: nothing this workload queues is one of those results */
          else p.push_back(sendPfx + "jettison" + (wl.oneIn(2) ? std::string() : (" " + Esc(Keys(wl, hosts, false)))));   // a receiver cancels its queued GETDATA results: routed Messages queued for it are none of those
